@@ -4904,6 +4904,38 @@ def _add_surface_vel(is_pyramidal: bool):
   return kernel
 
 
+@wp.kernel
+def _efc_nnz_overflow(
+  # Data in:
+  njmax_in: int,
+  njmax_nnz_in: int,
+  nefc_in: wp.array[int],
+  efc_J_rowadr_in: wp.array2d[int],
+  # In:
+  warn_overflow: bool,
+  efc_nnz_in: wp.array[int],
+  # Data out:
+  efc_J_rownnz_out: wp.array2d[int],
+  overflow_out: wp.array[int],
+):
+  """Flags a sparse Jacobian overflow and empties rows whose entries would be out of bounds."""
+  worldid, efcid = wp.tid()
+  efc_nnz = efc_nnz_in[worldid]
+
+  if efc_nnz <= njmax_nnz_in:
+    return
+
+  if efcid == 0:
+    if warn_overflow:
+      wp.printf("njmax_nnz overflow - please increase njmax_nnz to %u\n", efc_nnz)
+    wp.atomic_or(overflow_out, worldid, types.OverflowType.NJMAX_NNZ)
+
+  # a builder that returned at its njmax_nnz check may have stored rownnz but not rowadr
+  if efcid < wp.min(nefc_in[worldid], njmax_in):
+    if efc_J_rowadr_in[worldid, efcid] + efc_J_rownnz_out[worldid, efcid] > njmax_nnz_in:
+      efc_J_rownnz_out[worldid, efcid] = 0
+
+
 @event_scope
 def make_constraint(m: types.Model, d: types.Data):
   """Creates constraint jacobians and other supporting data."""
@@ -4915,6 +4947,11 @@ def make_constraint(m: types.Model, d: types.Data):
     dim=d.nworld,
     inputs=[d.ne, d.nf, d.nl, d.nefc, d.efc.jtdaj_nblock, efc_nnz],
   )
+
+  if m.is_sparse:
+    # rows dropped by a builder's njmax_nnz check keep an empty Jacobian row
+    d.efc.J_rownnz.zero_()
+    d.efc.J_rowadr.zero_()
 
   if not (m.opt.disableflags & types.DisableBit.CONSTRAINT):
     if not (m.opt.disableflags & types.DisableBit.EQUALITY):
@@ -5845,3 +5882,11 @@ def make_constraint(m: types.Model, d: types.Data):
             d.efc.frictionloss,
           ],
         )
+
+  if m.is_sparse:
+    wp.launch(
+      _efc_nnz_overflow,
+      dim=(d.nworld, d.njmax),
+      inputs=[d.njmax, d.njmax_nnz, d.nefc, d.efc.J_rowadr, m.opt.warn_overflow, efc_nnz],
+      outputs=[d.efc.J_rownnz, d.overflow],
+    )
